@@ -111,6 +111,10 @@ Fixpoint plain (r : rx) : bool :=
   | Look _ _ _ => false
   end.
 
+Lemma m_chr_step : forall neg rs s c t (K : st -> out),
+  suf s = c :: t -> chr_ok neg rs c = true -> m (Chr neg rs) s K = K (advance s c t).
+Proof. intros. simpl. rewrite H, H0. reflexivity. Qed.
+
 Lemma rep_chr_complete : forall neg rs g lo (k : st -> out) n s s',
   iter (sem (Chr neg rs)) n s s' -> k s' <> Fail ->
   forall fuel count, lo <= count + n ->
@@ -126,8 +130,8 @@ Proof.
   - destruct fuel as [|f]; [discriminate|]. rewrite rep_loop_S.
     inversion H1; subst. specialize (IH Hk).
     destruct (count <? lo) eqn:Hc.
-    + simpl. rewrite H2, H5. apply IH. lia.
-    + cbv zeta. simpl. rewrite H2, H5.
+    + rewrite (m_chr_step _ _ _ _ _ _ H2 H5). apply IH. lia.
+    + cbv zeta. rewrite (m_chr_step _ _ _ _ _ _ H2 H5).
       assert (Hp : Nat.eqb (pos (advance s1 c t)) (pos s1) = false).
       { apply Nat.eqb_neq. simpl. lia. }
       rewrite Hp. specialize (IH f (S count)).
@@ -141,24 +145,29 @@ Qed.
 Theorem m_complete : forall r, plain r = true -> forall s s' k,
   sem r s s' -> k s' <> Fail -> m r s k <> Fail.
 Proof.
-  induction r; intros Hp s s' k HS Hk; simpl in Hp; simpl.
-  - inversion HS; subst. auto.
-  - inversion HS; subst. rewrite H2, H5. auto.
+  induction r; intros Hp s s' k HS Hk; simpl in Hp.
+  - inversion HS; subst. simpl. auto.
+  - inversion HS; subst. erewrite m_chr_step; eauto.
   - apply andb_true_iff in Hp. destruct Hp as [Hp1 Hp2].
-    inversion HS; subst. eapply IHr1; eauto.
-  - apply andb_true_iff in Hp. destruct Hp as [Hp1 Hp2].
+    inversion HS; subst. simpl. eapply IHr1; eauto.
+  - apply andb_true_iff in Hp. destruct Hp as [Hp1 Hp2]. simpl.
     inversion HS; subst.
     + intro H. destruct (m r1 s k) eqn:E; simpl in H; try discriminate.
       revert E. eapply IHr1; eauto.
     + intro H. destruct (m r1 s k) eqn:E; simpl in H; try discriminate.
       revert H. eapply IHr2; eauto.
   - destruct hi; [discriminate|]. destruct r; try discriminate.
-    inversion HS; subst. eapply rep_chr_complete; eauto.
-  - inversion HS; subst. eapply IHr; eauto.
-  - inversion HS; subst. rewrite H0, H3. auto.
-  - inversion HS; subst. rewrite H0. auto.
-  - inversion HS; subst. rewrite H0. auto.
-  - inversion HS; subst. rewrite H. auto.
+    inversion HS; subst. simpl. eapply rep_chr_complete; eauto.
+  - inversion HS; subst. simpl. eapply IHr; eauto.
+  - inversion HS; subst. simpl.
+    match goal with H : get_cap _ _ = _ |- _ => rewrite H end.
+    match goal with H : lit _ _ = _ |- _ => rewrite H end. auto.
+  - inversion HS; subst. simpl.
+    match goal with H : at_bol _ _ = _ |- _ => rewrite H end. auto.
+  - inversion HS; subst. simpl.
+    match goal with H : at_eol _ _ = _ |- _ => rewrite H end. auto.
+  - inversion HS; subst. simpl.
+    match goal with H : suf _ = _ |- _ => rewrite H end. auto.
   - discriminate.
 Qed.
 
@@ -199,15 +208,22 @@ Proof.
     apply IH in H. simpl in H. auto.
 Qed.
 
+Lemma iter_caps : forall (P : st -> st -> Prop),
+  (forall s s', P s s' -> caps s' = caps s) ->
+  forall n s s', iter P n s s' -> caps s' = caps s.
+Proof.
+  intros P HP n s s' H. induction H as [|n s1 s2 s3 H1 HI IH]; auto.
+  transitivity (caps s2); auto.
+Qed.
+
 Lemma sem_no_grp_caps : forall r, no_grp r = true -> forall s s', sem r s s' -> caps s' = caps s.
 Proof.
   induction r; intros Hn s s' HS; simpl in Hn; inversion HS; subst; auto.
-  - apply andb_true_iff in Hn. destruct Hn as [H1 H2].
+  - apply andb_true_iff in Hn. destruct Hn as [Ha Hb].
     transitivity (caps s2); eauto.
-  - apply andb_true_iff in Hn. destruct Hn as [H1 H2]. eauto.
-  - apply andb_true_iff in Hn. destruct Hn as [H1 H2]. eauto.
-  - clear HS H6. induction H1 as [|n s1 s2 s3 HP HI IH]; auto.
-    transitivity (caps s2); eauto.
+  - apply andb_true_iff in Hn. destruct Hn as [Ha Hb]. eauto.
+  - apply andb_true_iff in Hn. destruct Hn as [Ha Hb]. eauto.
+  - eapply iter_caps; [|eassumption]. intros; eapply IHr; eauto.
   - discriminate.
   - eapply lit_caps; eauto.
 Qed.
@@ -240,21 +256,31 @@ Qed.
 Lemma consumed_set_cap : forall s s' t n sp, consumed s s' t -> consumed s (set_cap n sp s') t.
 Proof. intros s s' t n sp H. exact H. Qed.
 
+Lemma iter_consumed : forall (P : st -> st -> Prop),
+  (forall s s', P s s' -> exists t, consumed s s' t) ->
+  forall n s s', iter P n s s' -> exists t, consumed s s' t.
+Proof.
+  intros P HP n s s' H. induction H as [s|n s1 s2 s3 H1 HI IH].
+  - exists []. apply consumed_refl.
+  - apply HP in H1. destruct H1 as [t H1]. destruct IH as [u IH].
+    exists (t ++ u). eapply consumed_trans; eauto.
+Qed.
+
 Lemma sem_consumed : forall r s s', sem r s s' -> exists t, consumed s s' t.
 Proof.
   induction r; intros s s' HS; inversion HS; subst;
     try (exists []; apply consumed_refl).
-  - exists [c]. unfold consumed. simpl. rewrite H2. repeat split. lia.
-  - apply IHr1 in H1. apply IHr2 in H4. destruct H1 as [t H1]. destruct H4 as [u H4].
+  - exists [c]. unfold consumed. simpl.
+    match goal with H : suf _ = _ |- _ => rewrite H end. repeat split. lia.
+  - match goal with H : sem r1 _ _ |- _ => apply IHr1 in H; destruct H as [t Ht] end.
+    match goal with H : sem r2 _ _ |- _ => apply IHr2 in H; destruct H as [u Hu] end.
     exists (t ++ u). eapply consumed_trans; eauto.
   - eauto.
   - eauto.
-  - clear HS H6. induction H1 as [s|n s1 s2 s3 HP HI IH].
-    + exists []. apply consumed_refl.
-    + apply IHr in HP. destruct HP as [t HP]. destruct IH as [u IH].
-      exists (t ++ u). eapply consumed_trans; eauto.
-  - apply IHr in H1. destruct H1 as [t H1]. exists t. exact H1.
-  - apply lit_ext in H3. eexists. exact H3.
+  - eapply iter_consumed; [|eassumption]. auto.
+  - match goal with H : sem r _ _ |- _ => apply IHr in H; destruct H as [t Ht] end.
+    exists t. exact Ht.
+  - match goal with H : lit _ _ = _ |- _ => apply lit_ext in H end. eexists. eassumption.
 Qed.
 
 (* a sequence of single characters *)
@@ -264,10 +290,11 @@ Lemma iter_chr : forall neg rs n s s', iter (sem (Chr neg rs)) n s s' ->
 Proof.
   intros neg rs n s s' H. induction H as [s|n s1 s2 s3 HP HI IH].
   - exists []. split; [apply consumed_refl|]. auto.
-  - inversion HP; subst. destruct IH as [t [Hc [Hl [Hf Hcaps]]]].
-    exists (c :: t). split; [|split; [simpl; lia|split; [constructor; auto|simpl in Hcaps; auto]]].
-    change (c :: t) with ([c] ++ t). eapply consumed_trans; [|exact Hc].
-    unfold consumed. simpl. rewrite H1. repeat split. lia.
+  - inversion HP; subst. destruct IH as [u [Hc [Hl [Hf Hcaps]]]].
+    exists (c :: u). split; [|split; [simpl; lia|split; [constructor; auto|simpl in Hcaps; auto]]].
+    change (c :: u) with ([c] ++ u). eapply consumed_trans; [|exact Hc].
+    unfold consumed. simpl.
+    match goal with H : suf _ = _ |- _ => rewrite H end. repeat split. lia.
 Qed.
 
 Lemma iter_chr_intro : forall neg rs t s, Forall (fun c => chr_ok neg rs c = true) t ->
